@@ -58,6 +58,8 @@ class unix_disabled(uh.ifc.DisabledHash, uh.MinimalHandler):
         if marker is not None:
             if not marker or not cls.identify(marker):
                 raise ValueError(f"invalid marker: {marker!r}")
+            # NOTE: kept as text, enable() / disable() compare it against text hashes
+            marker = to_native_str(marker, param="marker")
             subcls.default_marker = marker
         return subcls
 
